@@ -158,6 +158,36 @@ def insertBad (s : Seq) (it : Item) : Res :=
   | .error e => (s, some e)
   | .ok _ => (s, some .type)
 
+/-! ## arguments that are not content items (a plain `Dataset`, a string, …)
+
+Every entry path tests `isinstance(x, ContentItem)` first (`is_item = false` arm of the REGENERATED decision trees):
+TypeError, nothing changes — except that `extend` / `+=` keep the content items that came before the intruder. -/
+
+/-- outcome of a regenerated check for something that is not a content item (it has no relationship type to ask for) -/
+def otherRefusal (r : Except ErrKind Bool) : Option ErrKind :=
+  match r with
+  | .error e => some e
+  | .ok _ => some .attribute            -- (unreachable while the source tests the type first: `non_items_are_refused`)
+
+/-- `seq.append(other)` -/
+def appendOther (s : Seq) : Res := (s, otherRefusal (Gen.csAppendCheck s.isRoot s.isSr false false))
+
+/-- `seq.extend(pre ++ [other] ++ …)` / `seq += …`: `pre` is appended item by item, then the intruder is refused -/
+def extendOther (s : Seq) (pre : List Item) : Res :=
+  match extend s pre with
+  | (s', none) => appendOther s'
+  | (s', some e) => (s', some e)
+
+/-- `seq.insert(pos, other)` -/
+def insertOther (s : Seq) : Res := (s, otherRefusal (Gen.csInsertCheck s.isRoot s.isSr false false))
+
+/-- `seq[i] = other` and `seq[a:b:c] = pre ++ [other] ++ …`: the per-item loop runs before anything is touched; the
+first offending entry decides the error -/
+def setOther (s : Seq) (pre : List Item) : Res :=
+  match checkAll (setitemCheck s) pre with
+  | .error e => (s, some e)
+  | .ok _ => (s, otherRefusal (Gen.csSetitemCheck s.isRoot s.isSr false false))
+
 /-! ## indices and slices of the underlying list -/
 
 /-- `list[i]` index normalisation: IndexError outside `-n ≤ i < n` -/
@@ -386,6 +416,10 @@ inductive Op
   | clear
   | intoFind (n : Nat)
   | intoNodes
+  | appendOther                                   -- `seq.append(<not a ContentItem>)`
+  | extendOther (pre : List Item)                 -- `seq.extend(pre ++ [<not a ContentItem>, …])` / `+=`
+  | insertOther                                   -- `seq.insert(pos, <not a ContentItem>)`
+  | setOther (pre : List Item)                    -- `seq[i] = <not a ContentItem>` / `seq[a:b:c] = pre ++ [<not …>, …]`
   deriving Repr
 
 def intoRes (s : Seq) : Except ErrKind Seq → Res
@@ -409,11 +443,28 @@ def step (s : Seq) : Op → Res
   | .clear => clear s
   | .intoFind n => intoRes s (find s n)
   | .intoNodes => intoRes s (getNodes s)
+  | .appendOther => appendOther s
+  | .extendOther pre => extendOther s pre
+  | .insertOther => insertOther s
+  | .setOther pre => setOther s pre
 
 /-- the state after a whole history (refused operations leave their — possibly partial — effect) -/
 def run (s : Seq) : List Op → Seq
   | [] => s
   | op :: ops => run (step s op).1 ops
+
+/-! ## copies of the objects
+
+`copy.deepcopy(seq)` / `pickle.loads(pickle.dumps(seq))`: `ContentSequence` defines neither `__deepcopy__` nor
+`__reduce__` (`Gen.csMethods`), so CPython rebuilds `_list` and `_lut` from copies of the items, one copy per object
+(memo), each standing where its original stood — in the list and in its bucket. -/
+
+/-- the same content in another object -/
+def relabelItem (f : Nat → Nat) (it : Item) : Item := { it with obj := f it.obj }
+
+/-- `deepcopy(seq)` with `f` naming the copies -/
+def relabel (f : Nat → Nat) (s : Seq) : Seq :=
+  { s with items := s.items.map (relabelItem f), lut := fun n => (s.lut n).map (relabelItem f) }
 
 /-! ## several sequences alive at once
 
